@@ -27,8 +27,11 @@ func rtcCartFor(id string) cartSpec {
 	for _, ch := range id {
 		h = h*31 + int(ch)
 	}
-	if h%3 == 0 {
+	switch h % 4 {
+	case 0:
 		return rtcCartNoRAM
+	case 1:
+		return cartSpec{"mbc3", 0x10, 2, 4, true} // 128 KiB of RAM declared: the clock registers are still at 08-0C
 	}
 	return rtcCart
 }
